@@ -347,11 +347,15 @@ class Program:
             return hits[0]
         raise AnalysisError(f"anchor class {rel}::{name} not found")
 
-    def all_funcs(self, include_template: bool = True) -> Iterator[Func]:
+    def all_funcs(self, include_template: bool = True, raw: bool = False) -> Iterator[Func]:
+        """Every function of the package, in the form fn() hands them out (private helpers inlined, helpers that were absorbed into all their
+        callers not listed on their own); raw=True gives the functions as parsed."""
+        if not raw:
+            from .util import view_funcs
         for m in self.modules.values():
             if m.virtual and not include_template:
                 continue
-            for f in m.funcs.values():
+            for f in (m.funcs.values() if raw else view_funcs(self, m)):
                 yield f
 
     def real_modules(self) -> Iterator[Module]:
@@ -363,7 +367,7 @@ class Program:
     def registered(self, decorator: str) -> Dict[str, Func]:
         """Functions decorated with @<decorator>(key="K") -> {K: func} (template included, key 'tmpl')."""
         out: Dict[str, Func] = {}
-        for f in self.all_funcs():
+        for f in self.all_funcs(raw=True):
             for d in f.decorators():
                 if isinstance(d, ast.Call) and _last_name(d.func) == decorator:
                     key = None
